@@ -422,7 +422,6 @@ def evaluate(res, tags, values, mode, cfg, parsed=None):
 
 def classify(res, tags, values_list, cfg):
     """Labels + non-triviality from the own reading of the tags."""
-    prefixes, sep, ignore_unknown = norm_cfg(cfg)
     active, ordinary, ambiguous = parse_tags(tags, cfg)
     if ambiguous:
         return
